@@ -194,7 +194,7 @@ Definition op_name (r : req) : str :=
   | RAck _ _ => kw "ACK" | RModify _ _ _ => kw "MOD" | RAdvance _ => kw "ADV"
   | RStats _ => kw "STATS" | RReg => kw "REG" | RStreamOpen _ _ _ _ => kw "SO"
   | RStreamSend _ _ _ _ _ _ _ => kw "SS" | RStreamClose _ => kw "SC" | RStreamRead _ => kw "SR"
-  | RPullBg _ _ _ => kw "BG" | RJoin _ => kw "PULL"
+  | RPullBg _ _ _ => kw "BG" | RJoin _ => kw "PULL" | RPushSub _ _ => kw "ROUND"
   end.
 
 Definition render (seen : list N) (r : req) (p : resp) : str * list N :=
@@ -215,6 +215,7 @@ Definition render (seen : list N) (r : req) (p : resp) : str * list N :=
       let (a, s') := r_batches seen bs in
       (join_sp ([nm; r_num (len_N bs)] ++ a ++ [match term with None => [45] | Some c => r_num c end]), s')
   | PPending => ([45], seen)
+  | PPushed _ => (nm, seen)
   | PJoined (inl c) => (join_sp [nm; r_num c], seen)
   | PJoined (inr ls) => let (a, s') := r_msgs seen ls in
                         (join_sp ([nm; r_num 0; r_num (len_N ls)] ++ a), s')
@@ -267,67 +268,151 @@ Definition is_blocking_pull (ts : list str) : option (str * str) :=
   | _ => None
   end.
 
-Fixpoint run_lines (sv : server) (seen : list N) (acks : list str) (bg : list (N * str))
+(* ---------- push mode ---------- *)
+Definition ep_prefix : str := Eval vm_compute in bytes_of_string "http://ep/e"%string.
+Definition refused_ep : str := Eval vm_compute in bytes_of_string "http://refused/"%string.
+
+Definition parse_outcome (t : str) : option outcome :=
+  if is_kw "reset" t then Some OReset
+  else if is_kw "hang" t then Some OHang
+  else match p_nat t with Some c => Some (OStatus c) | None => None end.
+
+Definition r_outcome (o : outcome) : str :=
+  match o with OStatus c => r_num c | OReset => kw "reset" | OHang => kw "hang" | ORefused => kw "refused" end.
+
+(* endpoint index of a registered endpoint string: "http://ep/e<k>" *)
+Definition ep_index (e : str) : option N :=
+  match strip_prefix ep_prefix e with
+  | Some [d] => if is_digit d then Some (d - 48) else None
+  | _ => None
+  end.
+
+Definition ep_script (eps : list (N * list outcome)) (k : N) : list outcome :=
+  match alookup N.eqb k eps with Some l => l | None => [] end.
+Definition ep_set (eps : list (N * list outcome)) (k : N) (l : list outcome) : list (N * list outcome) :=
+  (k, l) :: aremove N.eqb k eps.
+
+Definition r_post (k : N) (subname : str) (p : lease * outcome) : list str :=
+  let m := l_msg (fst p) in
+  [r_num k; r_str subname; r_str (dec_of_N (m_id m)); r_num 1; r_str (m_data m); r_num (len_N (m_attrs m))]
+    ++ flat_map (fun kv => [r_str (fst kv); r_str (snd kv)]) (m_attrs m) ++ [r_outcome (snd p)].
+
+(* One round over the registry (sorted by name): -> new state, scripts, the POSTs in order, did anything hang *)
+Fixpoint push_round (sv : server) (eps : list (N * list outcome)) (entries : list (name * str))
+  : server * list (N * list outcome) * list (N * str * (lease * outcome)) * bool :=
+  match entries with
+  | [] => (sv, eps, [], false)
+  | (sn, e) :: rest =>
+      let '(script, k) := match ep_index e with
+                          | Some k => (ep_script eps k, Some k)
+                          | None => (repeat ORefused 1000, None)
+                          end in
+      let (sv1, p) := api_step sv (RPushSub sn script) in
+      let posts := match p with PPushed l => l | _ => [] end in
+      let eps1 := match k with Some k' => ep_set eps k' (skipn (length posts) script) | None => eps end in
+      let hung := existsb (fun x => match snd x with OHang => true | _ => false end) posts in
+      let '(sv2, eps2, more, h2) := push_round sv1 eps1 rest in
+      let mine := match k with
+                  | Some k' => map (fun x => (k', show_sub_name sn, x)) posts
+                  | None => []      (* refused: nothing reaches an endpoint *)
+                  end in
+      (sv2, eps2, mine ++ more, hung || h2)
+  end.
+
+Definition sorted_registry (sv : server) : list (name * str) :=
+  isort (fun a b => str_ltb (show_sub_name (fst a)) (show_sub_name (fst b))) (sv_reg sv).
+
+Fixpoint run_lines (sv : server) (seen : list N) (acks : list str) (bg : list (N * str)) (eps : list (N * list outcome))
                    (lines : list (list str)) : list str :=
   match lines with
   | [] => []
   | ts :: rest =>
       let ts := map (resolve_tok acks) ts in
       match ts with
-      | [] => run_lines sv seen acks bg rest
+      | [] => run_lines sv seen acks bg eps rest
       | op :: args =>
-          if is_kw "SEED" op then kw "SEED" :: run_lines sv seen acks bg rest
-          else if is_kw "Q" op then kw "Q" :: run_lines sv seen acks bg rest
-          else if is_kw "YIELD" op then kw "YIELD" :: run_lines sv seen acks bg rest
+          if is_kw "SEED" op then kw "SEED" :: run_lines sv seen acks bg eps rest
+          else if is_kw "Q" op then kw "Q" :: run_lines sv seen acks bg eps rest
+          else if is_kw "YIELD" op then kw "YIELD" :: run_lines sv seen acks bg eps rest
+          else if is_kw "MODE" op then kw "MODE" :: run_lines sv seen acks bg eps rest
+          else if is_kw "EP" op then
+            match args with
+            | kt :: _ :: outs =>
+                match p_nat kt, parse_all parse_outcome outs with
+                | Some k, Some l => kw "EP" :: run_lines sv seen acks bg (ep_set eps k (ep_script eps k ++ l)) rest
+                | _, _ => [63] :: run_lines sv seen acks bg eps rest
+                end
+            | _ => [63] :: run_lines sv seen acks bg eps rest
+            end
+          else if is_kw "ROUND" op then
+            let '(sv1, eps1, posts, hung) := push_round sv eps (sorted_registry sv) in
+            (* a pass that hangs is abandoned by the harness after 20 s of real time *)
+            let sv2 := if hung then fst (api_step sv1 (RAdvance (20 * ns_per_s))) else sv1 in
+            join_sp ([kw "ROUND"; r_num (len_N posts)]
+                       ++ flat_map (fun x => r_post (fst (fst x)) (snd (fst x)) (snd x)) posts)
+              :: run_lines sv2 seen acks bg eps1 rest
+          else if is_kw "LOOP" op then
+            (* the real loop: every registered subscription gets its queued messages POSTed; used with
+               endpoints that accept everything, so that each message is POSTed exactly once *)
+            let '(sv1, eps1, posts, _) := push_round sv eps (sorted_registry sv) in
+            let subs := map (fun e => show_sub_name (fst e)) (sorted_registry sv) in
+            let per s := filter (fun x => str_eqb (snd (fst x)) s) posts in
+            let groups := filter (fun s => negb (is_nil (per s))) subs in
+            join_sp ([kw "LOOP"; r_num (len_N groups)]
+                       ++ flat_map (fun s =>
+                            let ids := isort N.ltb (map (fun x => m_id (l_msg (fst (snd x)))) (per s)) in
+                            [r_str s; r_num (len_N (per s)); r_num (len_N ids)]
+                              ++ map (fun i => r_str (dec_of_N i)) ids) groups)
+              :: run_lines sv1 seen acks bg eps1 rest
           else if is_kw "BG" op then
             match args with
             | idt :: inner =>
                 match p_nat idt with
-                | None => [63] :: run_lines sv seen acks bg rest
+                | None => [63] :: run_lines sv seen acks bg eps rest
                 | Some id =>
                     match is_blocking_pull inner with
                     | Some (s, m) =>
                         match p_str s, p_int m with
                         | Some s', Some m' =>
                             let (sv', _) := api_step sv (RPullBg id s' m') in
-                            kw "BG" :: run_lines sv' seen acks bg rest
-                        | _, _ => [63] :: run_lines sv seen acks bg rest
+                            kw "BG" :: run_lines sv' seen acks bg eps rest
+                        | _, _ => [63] :: run_lines sv seen acks bg eps rest
                         end
                     | None =>
                         match parse_op inner with
-                        | None => [63] :: run_lines sv seen acks bg rest
+                        | None => [63] :: run_lines sv seen acks bg eps rest
                         | Some r =>
                             let (sv', p) := api_step sv r in
                             let (line, seen') := render seen r p in
-                            kw "BG" :: run_lines sv' seen' (acks ++ resp_acks p) ((id, line) :: bg) rest
+                            kw "BG" :: run_lines sv' seen' (acks ++ resp_acks p) ((id, line) :: bg) eps rest
                         end
                     end
                 end
-            | [] => [63] :: run_lines sv seen acks bg rest
+            | [] => [63] :: run_lines sv seen acks bg eps rest
             end
           else if is_kw "JOIN" op then
             match args with
             | [idt] =>
                 match p_nat idt with
-                | None => [63] :: run_lines sv seen acks bg rest
+                | None => [63] :: run_lines sv seen acks bg eps rest
                 | Some id =>
                     match alookup N.eqb id bg with
-                    | Some line => join_sp [kw "JOIN"; r_num id; line] :: run_lines sv seen acks (aremove N.eqb id bg) rest
+                    | Some line => join_sp [kw "JOIN"; r_num id; line] :: run_lines sv seen acks (aremove N.eqb id bg) eps rest
                     | None =>
                         let (sv', p) := api_step sv (RJoin id) in
                         let (line, seen') := render seen (RJoin id) p in
-                        join_sp [kw "JOIN"; r_num id; line] :: run_lines sv' seen' (acks ++ resp_acks p) bg rest
+                        join_sp [kw "JOIN"; r_num id; line] :: run_lines sv' seen' (acks ++ resp_acks p) bg eps rest
                     end
                 end
-            | _ => [63] :: run_lines sv seen acks bg rest
+            | _ => [63] :: run_lines sv seen acks bg eps rest
             end
           else
             match parse_op ts with
-            | None => [63] :: run_lines sv seen acks bg rest
+            | None => [63] :: run_lines sv seen acks bg eps rest
             | Some r =>
                 let (sv', p) := api_step sv r in
                 let (line, seen') := render seen r p in
-                line :: run_lines sv' seen' (acks ++ resp_acks p) bg rest
+                line :: run_lines sv' seen' (acks ++ resp_acks p) bg eps rest
             end
       end
   end.
@@ -356,7 +441,7 @@ Fixpoint cases_of (lines : list str) (cur : option (str * list str)) : list (str
   end.
 
 Definition run_case (c : str * list str) : list str :=
-  fst c :: run_lines init_server [] [] [] (map tokens (snd c)) ++ [kw "END"].
+  fst c :: run_lines init_server [] [] [] [] (map tokens (snd c)) ++ [kw "END"].
 
 Fixpoint join_nl (l : list str) : str :=
   match l with
